@@ -73,6 +73,8 @@ class World:
         scen['eol'] = rng.choice(['\n', '\n', '\r\n', '\r\n', '\r', ';;\n']) if kind == 'string' else '\n'
         if kind == 'string' and len(scen['eol']) > 1 and rng.random() < 0.4:
             scen['chunk'] = 'eol'
+        # reconnect attempts that take time before they are refused
+        scen['refuse_takes'] = rng.choice([0, 0, 0.5, 2.0]) if fault == 'disconnect-refuse' else 0
         # byte communicators with variable-length replies: the tail is fetched by the getFullReply hook
         scen['varlen'] = kind == 'bytes' and rng.random() < 0.4
         # pause before sending (line communicators): data arriving during the pause is stale for the command
@@ -175,6 +177,8 @@ class World:
             dev['attempt_by'].append('poller' if me is not None and '__pollThread' in me.name else 'caller')
             if dev['refuse_left'] > 0:
                 dev['refuse_left'] -= 1
+                if scen.get('refuse_takes'):
+                    D.vsleep(scen['refuse_takes'])       # a slow refusal (time-out of the connect instead of an immediate reset)
                 raise ConnectionRefusedError(111, 'Connection refused')
             dev['connected'].append(s.now)
             dev['socks'].append(sock)
@@ -394,6 +398,14 @@ class World:
             who = [w_ for a, w_ in zip(dev['attempts'], dev['attempt_by']) if a > dev['dropped']]
             for src in ('caller', 'poller'):
                 mine = [a for a, w_ in zip(att, who) if w_ == src]
+                if src == 'poller' and scen.get('refuse_takes'):
+                    # the poll thread keeps a fixed grid: after a slow attempt the next one may follow at the next grid point,
+                    # less than one interval after the START of the previous one (catching up, as for every slow poll).
+                    # judged on the rate: never more than two attempts started within one interval
+                    if any(c - a < 3 - 0.05 for a, c in zip(mine, mine[2:])):
+                        r.violation('C16/reconnect-attempts-too-frequent/by-pollers', f'reconnect interval 3 s, three attempts of the poller within one interval: {[round(a - dev["dropped"], 3) for a in mine]}', case)
+                        return
+                    continue
                 if any(b - a < 3 - 0.05 for a, b in zip(mine, mine[1:])):
                     r.violation(f'C16/reconnect-attempts-too-frequent/by-{src}s', f'reconnect interval 3 s, attempts by {src}s at {[round(a - dev["dropped"], 3) for a in mine]}', case)
                     return
